@@ -14,7 +14,8 @@ func newLet(name string, args slip.List, p *slip.Printer) Node {
 		List: List{children: make([]Node, len(args))},
 		name: name,
 	}
-	bindings := args[0].(slip.List)
+	// No bindings, (let () ...), is read as nil.
+	bindings, _ := args[0].(slip.List)
 	let.children[0] = newBindings(bindings, p)
 	for i, v := range args[1:] {
 		let.children[i+1] = buildNode(v, p)
